@@ -44,11 +44,23 @@ impl Delay {
 	}
 }
 
+/// Returns the length of the delay line for a delay time at a sample rate:
+/// the delay time in frames, rounded down, but at least one frame (the delay
+/// line needs at least one frame).
+///
+/// This is computed from whole nanoseconds in integers, because the `f64`
+/// product `delay_time.as_secs_f64() * sample_rate as f64` can land just
+/// below a whole number of frames (125.125 ms at 8 kHz is exactly 1001
+/// frames, but the product is 1000.9999999999999).
+#[must_use]
+fn delay_time_frames(delay_time: Duration, sample_rate: u32) -> usize {
+	let frames = delay_time.as_nanos() * sample_rate as u128 / 1_000_000_000;
+	usize::try_from(frames).unwrap_or(usize::MAX).max(1)
+}
+
 impl Effect for Delay {
 	fn init(&mut self, sample_rate: u32, internal_buffer_size: usize) {
-		// the delay line needs at least one frame
-		let delay_time_frames =
-			((self.delay_time.as_secs_f64() * sample_rate as f64) as usize).max(1);
+		let delay_time_frames = delay_time_frames(self.delay_time, sample_rate);
 		self.buffer = vec![Frame::ZERO; delay_time_frames];
 		self.temp_buffer = vec![Frame::ZERO; internal_buffer_size];
 		for effect in &mut self.feedback_effects {
@@ -57,9 +69,7 @@ impl Effect for Delay {
 	}
 
 	fn on_change_sample_rate(&mut self, sample_rate: u32) {
-		// the delay line needs at least one frame
-		let delay_time_frames =
-			((self.delay_time.as_secs_f64() * sample_rate as f64) as usize).max(1);
+		let delay_time_frames = delay_time_frames(self.delay_time, sample_rate);
 		self.buffer = vec![Frame::ZERO; delay_time_frames];
 		for effect in &mut self.feedback_effects {
 			effect.on_change_sample_rate(sample_rate);
